@@ -130,10 +130,11 @@ prop('C08',
            '(saturating, never early); Remove is queued only for a frame is_expired reported; the head:N collector scans exactly the '
            'prefix ctx||topic||0x00, spares the newest N entries and removes only frames whose index entry lies beyond them; append '
            'queues CheckHeadTTL only for a stored head:N frame with that context, topic and N; remove deletes only the three entries '
-           'of the frame it read.',
+           'of the frame it read; the collector Remove arm removes a frame together with both its index entries or not at all; '
+           'opening a store writes nothing and queues nothing for the collector (no frame is removed because of a restart).',
      technique=TECH,
      units=['verus:expiry', 'verus:store_ops', 'verus:keys', 'verus:read_ops', 'kani:k1'],
-     obligations=['read.history.remove_only_expired', 'read_ops.read_history.body', 'k1.timestamp_is_top_48_bits', 'lemma.L1.*', 'lemma.L4.*', 'expiry.is_expired.*', 'expiry.is_expired.body', 'store.read_sync.*', 'store.gc_head.*', 'store.gc_remove.*', 'store_ops.gc_remove_arm.body', 'store.append.store_then_broadcast',
+     obligations=['read.history.remove_only_expired', 'read_ops.read_history.body', 'store.new.opens_without_writes_or_collector_tasks', 'store_ops.new_reload_loop.body', 'k1.timestamp_is_top_48_bits', 'lemma.L1.*', 'lemma.L4.*', 'expiry.is_expired.*', 'expiry.is_expired.body', 'store.read_sync.*', 'store.gc_head.*', 'store.gc_remove.*', 'store_ops.gc_remove_arm.body', 'store.append.store_then_broadcast',
                   'store.append.ephemeral_not_stored', 'store.remove.three_tombstones', 'store.remove.nothing_else_touched',
                   'keys.prefix.layout', 'keys.from_frame.layout', 'keys.id_from_key.last16',
                   'store_ops.gc_head_arm.body', 'store_ops.read_sync_filter.body'],
@@ -220,14 +221,16 @@ prop('C19',
 prop('C20',
      level='proof',
      claim='Call-site obligations: insert_frame (the import path) stores the frame as is under its own id with one batch + SyncAll and '
-           'emits no broadcast / GC task; its preconditions for keeping the indexes in lock-step (P1-P4) are stated and the import '
-           'call site is checked against them (known findings).',
+           'emits no broadcast / GC task; a stored registration frame registers its context at once; at the level of the three partitions the import batches '
+           'of different frames commute and importing a frame twice is importing it once (lemma L9), and each import keeps the representation invariant under P2 (lemma L7); '
+           'its preconditions for keeping the indexes in lock-step (P1-P3) are stated and the import call site is checked against them (known findings).',
      technique=TECH,
-     units=['verus:store_ops', 'verus:api_ops'],
-     obligations=['store.insert_frame.*', 'store_ops.Store::insert_frame.body', 'api.import.*', 'api_ops.import_parse_and_insert.body'],
+     units=['verus:store_ops', 'verus:api_ops', 'verus:lockstep'],
+     units_note='lockstep: spec-only lemmas',
+     obligations=['store.insert_frame.*', 'store_ops.Store::insert_frame.body', 'api.import.*', 'api_ops.import_parse_and_insert.body', 'lemma.L7.insert_preserves_lockstep', 'lemma.L9.*'],
      trusted=STORE_TRUST,
      explanation='insert_frame contract; import call-site slice when present.',
-     not_decided='content import (cacache); order permutations beyond idempotence and id-keyed placement')
+     not_decided='content import (cacache); what a reader observes while an import is half way (a schedule statement)')
 
 READ_TRUST = ['extraction', 'sequential', 'scru128', 'channels', 'overflow']
 
